@@ -57,6 +57,8 @@ fn exec(case: &[String], out: &mut Out) {
 	let mut m: Option<HPlaybackStateManager> = None;
 	// oracle bookkeeping: direction of the running fade (-1 out, +1 in, 0 unknown), positive easing only
 	let mut fade_dir: i32 = 0;
+	// the start time a WaitingToResume state is waiting for, and the time spent waiting
+	let mut waiting: Option<(kira::StartTime, f64, u32)> = None;
 	for l in &case[1..] {
 		let tok: Vec<&str> = l.split_whitespace().collect();
 		match tok[0] {
@@ -87,6 +89,9 @@ fn exec(case: &[String], out: &mut Out) {
 					"resume" => {
 						let st = parse_start(tok[1], &ids);
 						immediate = st == kira::StartTime::Immediate;
+						if a != 6 && !immediate {
+							waiting = Some((st, 0.0, 0));
+						}
 						p.resume(st, parse_tween(tok[2], &ids))
 					}
 					"stop" => p.stop(parse_tween(tok[1], &ids)),
@@ -146,6 +151,45 @@ fn exec(case: &[String], out: &mut Out) {
 				}
 				if a == 3 && b == 4 {
 					fade_dir = 1;
+				}
+				// --- resume_at: WaitingToResume ends when the start time comes (C03) ---
+				if a == 3 {
+					if let Some((st, elapsed, n)) = waiting.as_mut() {
+						*elapsed += p64(tok[1]);
+						*n += 1;
+						match st {
+							kira::StartTime::Delayed(d) => {
+								let d = d.as_nanos() as f64;
+								// 1 µs of slack per update for the rounding of each step to nanoseconds
+								if *elapsed * 1e9 > d + 1000.0 * *n as f64 && b == 3 {
+									out.oracle_fail("psm_waiting_past_start_time", l);
+								}
+								if *elapsed * 1e9 < d - 1000.0 * *n as f64 && b != 3 {
+									out.oracle_fail("psm_resumed_before_start_time", l);
+								}
+							}
+							kira::StartTime::ClockTime(ct) => {
+								let idx = ids.clocks.iter().position(|c| *c == ct.clock).unwrap();
+								match info_state.clocks.get(idx) {
+									None => {
+										if b != 6 {
+											out.oracle_fail("psm_missing_clock_not_stopped", l);
+										}
+									}
+									Some((ticking, ticks, frac)) => {
+										let reached = *ticking && (*ticks > ct.ticks || (*ticks == ct.ticks && *frac >= ct.fraction));
+										if reached != (b == 4) {
+											out.oracle_fail("psm_clock_start_time", l);
+										}
+									}
+								}
+							}
+							_ => {}
+						}
+					}
+				}
+				if b != 3 {
+					waiting = None;
 				}
 			}
 			"fade" => {
